@@ -75,12 +75,16 @@ def invoke(fn, names_, args, environment, pos):
         if isinstance(arg, NodeSpread):
             argvalue = arg.evaluate(environment)
             if argvalue.isMap():
-                for key, value in argvalue.value.items():
-                    values.append(value)
+                for key in argvalue.getSortedKeys():
+                    values.append(argvalue.value[key])
                     if key.isString():
                         names.append(key.value)
                     else:
                         names.append(None)
+            elif argvalue.isSet():
+                for value in argvalue.getSortedItems():
+                    values.append(value)
+                    names.append(None)
             else:
                 for value in argvalue.value:
                     values.append(value)
@@ -1208,7 +1212,13 @@ class NodeList:
         for item in self.items:
             if isinstance(item, NodeSpread):
                 lst = item.evaluate(environment)
-                for value in lst.value:
+                if lst.isSet():
+                    values = lst.getSortedItems()
+                elif lst.isMap():
+                    values = lst.getSortedKeys()
+                else:
+                    values = lst.value
+                for value in values:
                     result.addItem(value)
             else:
                 result.addItem(item.evaluate(environment))
